@@ -257,6 +257,12 @@ func C14(sp *spec.Spec, ex *rt.Exchange) *Verdict {
 	if ex.StubIn == nil || oc == nil || ex.StubErr != "" {
 		return v
 	}
+	if strings.HasPrefix(c.Class, "result-probe:") && invalidSide(c.Class[strings.LastIndex(c.Class, ":")+1:]) {
+		// the stub was scripted to return a value on the violating side of a rule (for MinLength(1) that is an
+		// explicitly empty collection, which the tree comparison treats like an absent one): whatever the server
+		// wrote is the service's breach, not the document's
+		return v
+	}
 	cls := ""
 	var mapped []spec.Loc // attributes of the returned value written to headers/cookies of this response
 	switch {
@@ -506,6 +512,16 @@ func memberOutsideView(sp *spec.Spec, m *spec.Method, e, scripted, header string
 				return false
 			}
 		}
+		return true
+	}
+	return false
+}
+
+// invalidSide reports whether a probe side names the violating side of its rule.
+func invalidSide(side string) bool {
+	switch side {
+	case "non-member", "no-match", "malformed", "missing", "minlen-below", "maxlen-above", "min-below", "max-above",
+		"exclmin-on", "exclmin-below", "exclmax-on", "exclmax-above":
 		return true
 	}
 	return false
